@@ -53,6 +53,10 @@ func (d *PathDecoder) decodeWriteOnlyAttributesForBody(body hcl.Body, bodySchema
 				// unknown block (no schema)
 				continue
 			}
+			if len(block.Labels) == 0 {
+				// incomplete block (no labels yet)
+				continue
+			}
 
 			mergedSchema, _ := schemahelper.MergeBlockBodySchemas(block.Block, blockSchema)
 
